@@ -93,6 +93,7 @@ Definition SIG_ACKNUM := 4%N.
 Definition SIG_EVENT := 5%N.
 Definition SIG_MALFORMED := 6%N.
 Definition SIG_MODEL := 7%N.       (* differs from the model in a way none of the above names *)
+Definition SIG_FIN := 8%N.         (* the FIN of an established connection got no acknowledgement *)
 
 (* every frame emitted in answer to segment g *)
 Definition frame_sig (g : seg) (fr : bytes) : N :=
@@ -107,7 +108,7 @@ Definition frame_sig (g : seg) (fr : bytes) : N :=
   else if hasf (f_flags v) ACK && negb (hasf (g_flags g) SYN) then
          (* in-order traffic: whatever is acknowledged is the end of this segment (+1 for FIN) *)
          (if (f_ack v =? u32 (g_seq g + zlen (g_payload g)))
-             || (hasf (g_flags g) FIN && (f_ack v =? u32 (g_seq g + 1)))
+             || (hasf (g_flags g) FIN && (f_ack v =? u32 (g_seq g + zlen (g_payload g) + 1)))
           then 0 else SIG_ACKNUM)
   else 0%N.
 
@@ -134,23 +135,63 @@ Definition stream_of (ops : list op) (e : ev) : bytes :=
                      | _ => []
                      end) ops.
 
-Fixpoint ops_sig (seen : list op) (ops : list op) (obs : list sobs) : N :=
+(* Evidence, taken from the observed exchange alone, that the connection a segment belongs to is
+   established and still open in the client's direction: its SYN was answered by one SYN-ACK
+   with sequence number q (q = ISS + 1 mod 2^32; q = 0 and q = 2^32 - 1 are the two server ISS
+   values of the recorded comparison oddity), the client then acknowledged q + 1 in a segment
+   without SYN/RST/FIN, and it has sent no RST and no FIN since. *)
+Inductive cstate := CNone | CSyn (q : Z) | CEst | CDead.
+
+Definition same_conn (g h : seg) : bool :=
+  ip_eqb (g_sip g) (g_sip h) && ip_eqb (g_dip g) (g_dip h) && (g_sport g =? g_sport h) && (g_dport g =? g_dport h).
+
+Definition cstep (g : seg) (st : cstate) (x : op * sobs) : cstate :=
+  match x with
+  | (OSeg h _, so) =>
+      if same_conn g h then
+        if hasf (g_flags h) SYN && negb (hasf (g_flags h) ACK) then
+          match so_frames so with
+          | [fr] => let v := view fr in
+                    if f_ok v && (f_flags v =? SYN + ACK) then CSyn (f_seq v) else CDead
+          | _ => CDead
+          end
+        else if hasf (g_flags h) RST || hasf (g_flags h) FIN || hasf (g_flags h) SYN then CDead
+        else match st with
+             | CSyn q => if hasf (g_flags h) ACK && (g_ack h =? u32 (q + 1)) && (0 <? q) && (q <? 4294967295)
+                         then CEst else CDead
+             | s => s
+             end
+      else st
+  | _ => st
+  end.
+
+Definition fin_due (seen : list (op * sobs)) (g : seg) : bool :=
+  hasf (g_flags g) FIN && hasf (g_flags g) ACK && negb (hasf (g_flags g) SYN) && negb (hasf (g_flags g) RST) &&
+  match fold_left (cstep g) seen CNone with CEst => true | _ => false end.
+
+Definition fin_answered (g : seg) (so : sobs) : bool :=
+  existsb (fun fr => let v := view fr in
+                     f_ok v && hasf (f_flags v) ACK && (f_ack v =? u32 (g_seq g + zlen (g_payload g) + 1)))
+          (so_frames so).
+
+Fixpoint ops_sig (seen : list (op * sobs)) (ops : list op) (obs : list sobs) : N :=
   match ops, obs with
   | [], [] => 0
-  | OSeg g _ :: r, so :: ro =>
+  | OSeg g fr :: r, so :: ro =>
       let s := first_nz (map (frame_sig g) (so_frames so)) in
       let s := if (s =? 0)%N then
                  (if hasf (g_flags g) SYN && negb (hasf (g_flags g) ACK) && negb (Nat.eqb (length (so_frames so)) 1)
                   then SIG_SYNACK else 0) else s in
-      if (s =? 0)%N then ops_sig (seen ++ [OSeg g (0%N, 0%Z, 0%Z)]) r ro else s
+      let s := if (s =? 0)%N then (if fin_due seen g && negb (fin_answered g so) then SIG_FIN else 0) else s in
+      if (s =? 0)%N then ops_sig (seen ++ [(OSeg g fr, so)]) r ro else s
   | OReader k :: r, so :: ro =>
       let s := first_nz (map reader_frame_sig (so_frames so)) in
       let s := if (s =? 0)%N then
                  match so_ev so with
-                 | Some e => if is_prefix (e_payload e) (stream_of seen e) then 0 else SIG_EVENT
+                 | Some e => if is_prefix (e_payload e) (stream_of (map fst seen) e) then 0 else SIG_EVENT
                  | None => 0
                  end else s in
-      if (s =? 0)%N then ops_sig (seen ++ [OReader k]) r ro else s
+      if (s =? 0)%N then ops_sig (seen ++ [(OReader k, so)]) r ro else s
   | _, _ => SIG_MALFORMED
   end%N.
 
